@@ -1683,26 +1683,35 @@ func (c *c11) caseConn(tamper string, wrongKey bool) {
 				break
 			}
 			// read everything back through Conn.Read with a small and a large buffer
+			// every single Conn.Read is a trace line: caller buffer size, bytes returned,
+			// error class, what stays in readBuf, and whether everything returned so far
+			// is a prefix of what was written (judged on the bytes themselves).
 			got := make([]byte, 0, n)
 			rerr := error(nil)
-			for len(got) < n {
-				buf := make([]byte, []int{1, 7, 4096, 70000}[c.rng.Intn(4)])
+			pfx := 1
+			oneRead := func(capn int) error {
+				buf := make([]byte, capn)
 				var m int
 				var err error
 				if guard(func() { m, err = r.Read(buf) }) {
 					err = errors.New("verif: panic in Conn.Read")
 				}
+				if len(got)+m > len(msg) || string(buf[:m]) != string(msg[len(got):len(got)+m]) {
+					pfx = 0
+				}
 				got = append(got, buf[:m]...)
-				if err != nil {
+				c.pf("crd %s cap=%d => n=%d err=%s bl=%d pfx=%d", name, capn, m, classify(err), r.readBuf.Len(), pfx)
+				c.stats["crd_"+classify(err)]++
+				return err
+			}
+			for len(got) < n {
+				if err := oneRead([]int{0, 1, 7, 4096, 70000}[c.rng.Intn(5)]); err != nil {
 					rerr = err
 					break
 				}
 			}
 			if n == 0 {
-				buf := make([]byte, 8)
-				if guard(func() { _, rerr = r.Read(buf) }) {
-					rerr = errors.New("verif: panic in Conn.Read")
-				}
+				rerr = oneRead(8)
 			}
 			same := 0
 			if string(got) == string(msg) {
